@@ -1469,7 +1469,13 @@ func stage(fd *ast.FuncDecl) string {
 					}
 					closerKind = "waitGroup"
 					if fn.name == "Fold" && len(b) > 1 {
-						if _, n, _, ok := callNameStmt(b[1]); !ok || n != "close" {
+						plain := true
+						for _, s := range b[1:] {
+							if _, n, _, ok := callNameStmt(s); !ok || n != "close" {
+								plain = false
+							}
+						}
+						if !plain {
 							closer = fn.collector(b[1:])
 							continue
 						}
@@ -1835,6 +1841,17 @@ func (fn *stFn) collector(b []ast.Stmt) []string {
 							fn.collectorOps = append(fn.collectorOps, ".foldRecvPar "+ci)
 							continue
 						}
+					}
+				}
+			}
+		case *ast.RangeStmt:
+			// for v := range vals { acc = m.Combine(acc, v) }
+			if k, ok := x.Key.(*ast.Ident); ok && x.Value == nil && x.Tok == token.DEFINE && len(x.Body.List) == 1 && acc != "" {
+				if as, ok := x.Body.List[0].(*ast.AssignStmt); ok && as.Tok == token.ASSIGN && len(as.Lhs) == 1 && len(as.Rhs) == 1 && src(as.Lhs[0]) == acc {
+					if r, n, args, ok := callName(as.Rhs[0]); ok && r == fn.monoid && n == "Combine" && len(args) == 2 && src(args[0]) == acc && src(args[1]) == k.Name && k.Name != acc {
+						ci, _ := fn.chanIdx(x.X)
+						fn.collectorOps = append(fn.collectorOps, ".foldRange "+ci)
+						continue
 					}
 				}
 			}
